@@ -822,3 +822,120 @@ func ruleDiffReaders(w *World, r *Report, pkg *ssa.Package, tag string, formats 
 			yaml+": this format is a JSON text; yaml.v2 rejects valid JSON escapes (\\/, surrogate pairs), so valid documents are refused")
 	}
 }
+
+// ruleBlankDoc — R-BLANKDOC (C16: "rendering any document as YAML and reading
+// it back gives an equal document"). The readers turn a blank text into the
+// void document before any decoder sees it. "Blank" must mean the white space
+// of the formats themselves (space, tab, CR, LF): the Unicode-aware trimmers
+// of the standard library (strings.TrimSpace, bytes.TrimSpace, strings.Fields,
+// unicode.IsSpace) also eat U+00A0, U+2003, U+3000 …, which YAML writes
+// unquoted as the whole text of a one-string document — that document would
+// read back as void.
+func ruleBlankDoc(w *World, r *Report, pkg *ssa.Package, tag string) {
+	rule := "R-BLANKDOC"
+	if tag != "v2" {
+		rule += "(" + tag + ")"
+	}
+	entries := []*ssa.Function{}
+	for _, n := range []string{"ReadJsonString", "ReadYamlString"} {
+		if f := w.FuncOpt(pkg, n); f != nil {
+			entries = append(entries, f)
+		}
+	}
+	scope := reachableIn(w, pkg, entries)
+	n := 0
+	unicodeAware := map[string]bool{"strings.TrimSpace": true, "bytes.TrimSpace": true, "strings.Fields": true, "bytes.Fields": true, "unicode.IsSpace": true,
+		"strings.TrimLeftFunc": true, "strings.TrimRightFunc": true, "strings.TrimFunc": true}
+	var fns []*ssa.Function
+	for fn := range scope {
+		fns = append(fns, fn)
+	}
+	sort.Slice(fns, func(i, j int) bool { return fnName(fns[i]) < fnName(fns[j]) })
+	for _, fn := range fns {
+		if fn.Blocks == nil {
+			continue
+		}
+		d := NewDeriv(w, fn)
+		k := 0
+		for _, b := range fn.Blocks {
+			cond, _, _, ok := branchEdges(b)
+			if !ok {
+				continue
+			}
+			// a test on the document text: its derivation reaches a []byte / string parameter
+			fromText := false
+			bad := ""
+			for v := range d.Visited(cond) {
+				if p, isP := v.(*ssa.Parameter); isP {
+					if bt, okb := p.Type().Underlying().(*types.Basic); okb && bt.Info()&types.IsString != 0 {
+						fromText = true
+					}
+					if sl, oks := p.Type().Underlying().(*types.Slice); oks && isByteType(sl.Elem()) {
+						fromText = true
+					}
+				}
+				if c, isC := v.(*ssa.Call); isC {
+					name := calleeFullName(c)
+					for u := range unicodeAware {
+						if strings.HasSuffix(name, u) {
+							bad = u
+						}
+					}
+				}
+			}
+			if !fromText {
+				continue
+			}
+			k++
+			n++
+			r.Fn(fnName(fn))
+			r.Check(bad == "", rule, fmt.Sprintf("%s:text-test#%d", fnName(fn), k), w.Pos(b.Instrs[len(b.Instrs)-1].Pos()),
+				"the test made on the document text before decoding does not use a Unicode-aware white-space function",
+				"the document text is tested with "+bad+", which treats U+00A0, U+2003, U+3000 … as blank: a document consisting of such a string (which YAML writes unquoted) is read as the void document")
+		}
+	}
+	if n == 0 {
+		r.Ok(rule, tag+":no-text-test", "-", "the readers make no test on the document text before decoding")
+	}
+}
+
+// ruleYamlMergeKey — R-YAMLMERGEKEY (C16: "strings that look like … YAML
+// syntax"; keys are strings too). A fact about the pinned codec, frozen here
+// like the dynamic-type table of R-YAMLTYPES: gopkg.in/yaml.v2 v2.4.0 writes
+// the map key "<<" unquoted and its decoder resolves the plain scalar `<<` in
+// key position as the YAML 1.1 merge key. A document with a member named "<<"
+// therefore does not survive Yaml() → ReadYamlString unless something between
+// the node and yaml.Marshal protects that key. The rule checks the structural
+// half: the value handed to yaml.Marshal is the renderer's parameter (the
+// plain map raw() built), untouched.
+func ruleYamlMergeKey(w *World, r *Report, pkg *ssa.Package, tag string) {
+	const rule = "R-YAMLMERGEKEY"
+	n := 0
+	for _, fn := range w.FuncsOf(pkg) {
+		k := 0
+		allInstrs(fn, func(in ssa.Instruction) {
+			c, ok := in.(*ssa.Call)
+			if !ok || !strings.HasSuffix(calleeFullName(c), "yaml.v2.Marshal") || len(c.Call.Args) != 1 {
+				return
+			}
+			k++
+			n++
+			r.Fn(fnName(fn))
+			arg := strip(c.Call.Args[0])
+			_, isParam := arg.(*ssa.Parameter)
+			if ver := w.moduleVersion("gopkg.in/yaml.v2"); ver != "" && ver != "v2.4.0" {
+				r.Ok(rule, fmt.Sprintf("%s:marshal#%d", fnName(fn), k), w.Pos(c.Pos()), "yaml.v2 is not the pinned v2.4.0 ("+ver+"): the frozen fact does not apply, no claim (not decided)")
+				return
+			}
+			if !isParam {
+				r.Ok(rule, fmt.Sprintf("%s:marshal#%d", fnName(fn), k), w.Pos(c.Pos()), "the value handed to yaml.Marshal is computed by the renderer (not its plain parameter): whether it protects the key \"<<\" is not decided, no claim")
+				return
+			}
+			r.Bad(rule, fmt.Sprintf("%s:marshal#%d", fnName(fn), k), w.Pos(c.Pos()),
+				"the document's plain map goes to yaml.Marshal as it is: yaml.v2 v2.4.0 writes the key \"<<\" unquoted and reads `<<:` as a merge key, so {\"<<\":\"x\"} renders as `<<: x`, which does not read back, and {\"<<\":{\"a\":1},\"b\":2} reads back as {\"a\":1,\"b\":2}")
+		})
+	}
+	if n == 0 {
+		r.Ok(rule, tag+":no-yaml-marshal", "-", "yaml.Marshal is not called in the package")
+	}
+}
